@@ -260,7 +260,7 @@ func checkC12(c *StatsCase) (*Outcome, map[string]bool) {
 	return o, seen
 }
 
-var c12Fixtures = []string{"flat24", "nest", "tiny"}
+var c12Fixtures = []string{"flat24", "nest", "tiny", "stats2"}
 var c12Classes = []string{"", "", "neg", "tiny", "nan", "sentinel", "longstr"}
 
 func TestC12(t *testing.T) {
